@@ -20,23 +20,23 @@ Definition loses (fixed : bool) (ls : list label) : Prop :=
   lost_exc s = None /\ delivered s = hello ++ world /\ received os = world /\ parked s = [] /\ tpc s = PIdle.
 
 Lemma loses_data_cancel : loses false witness_data_cancel.
-Proof. vm_compute. repeat split; reflexivity. Qed.
+Proof. vm_compute. repeat split. Qed.
 
 Lemma loses_cancel_data : loses false witness_cancel_data.
-Proof. vm_compute. repeat split; reflexivity. Qed.
+Proof. vm_compute. repeat split. Qed.
 
 Lemma no_loss_refuted_proof :
   exists ls, let '(s, os) := exec false init ls in
              lost_exc s = None /\ delivered s = hello ++ world /\ received os = world /\ parked s = [] /\ tpc s = PIdle.
-Proof. exists witness_data_cancel. exact loses_data_cancel. Qed.
+Proof. exists witness_data_cancel. vm_compute. repeat split. Qed.
 
 Lemma no_loss_refuted_cancel_first_proof :
   exists ls, let '(s, os) := exec false init ls in
              lost_exc s = None /\ delivered s = hello ++ world /\ received os = world /\ parked s = [] /\ tpc s = PIdle.
-Proof. exists witness_cancel_data. exact loses_cancel_data. Qed.
+Proof. exists witness_cancel_data. vm_compute. repeat split. Qed.
 
 (* the same label sequences on the repaired protocol *)
 Lemma fixed_keeps_witnesses :
   received (snd (exec true init witness_data_cancel)) = hello ++ world /\
   received (snd (exec true init witness_cancel_data)) = hello ++ world.
-Proof. vm_compute. split; reflexivity. Qed.
+Proof. split; vm_compute; reflexivity. Qed.
